@@ -23,7 +23,7 @@ from engine import dump, traces
 LEVEL = 'model_checking'
 
 # ------------------------------------------------------------------ projection of real results (shared by both bindings)
-MSG_RE = re.compile(r'MSG_(A1|A2|A3|CM|WR|TM|LA)@p(\d)')
+MSG_RE = re.compile(r'MSG_(A1|A2|A3|CM|WR|TM|LA|EM|B1|B2)@p(\d)')
 NOTE_RE = re.compile(r'NOTE(\d+)(?:@p(\d+))?')
 SUBSTR_TOKENS = [('MITx Grading Library Version', 'BANNER'), ('Running on edX using python', 'PYVER'),
                  ('Student Response', 'STUDENT_RESPONSE'), ('Comparison Data for All', 'LOGCMP'),
@@ -31,7 +31,7 @@ SUBSTR_TOKENS = [('MITx Grading Library Version', 'BANNER'), ('Running on edX us
                  ('Maximum credit is', 'LOGMAX'), ('Expect value inferred', 'LOGINFER'),
                  ('Using modified defaults', 'LOGDEFAULTS'), ('zqans', 'ANSWER'),
                  ('Maximum credit for attempt #', 'ATT')]
-MODEL_VOCAB = {'A1', 'A2', 'A3', 'CM', 'W', 'TM', 'LA', 'ATT', 'BANNER', 'LOGCMP', 'LOGATT'}
+MODEL_VOCAB = {'A1', 'A2', 'A3', 'CM', 'W', 'TM', 'LA', 'EM', 'B1', 'B2', 'ATT', 'BANNER', 'LOGCMP', 'LOGATT'}
 ITEM_KEYS = ['grade_decimal', 'msg', 'ok']
 
 
@@ -116,7 +116,10 @@ GROUPS = {'flat2': [[1], [2]], 'flat3': [[1], [2], [3]], 'g121': [[1, 3], [2]], 
           'g1212': [[1, 3], [2, 4]]}
 GROUPING = {'g121': [1, 2, 1], 'g212': [2, 1, 2], 'g1212': [1, 2, 1, 2]}
 HOSTS = {'formula': ('FormulaGrader', '1', '1'), 'matrix': ('MatrixGrader', '[1,2]', '[1,2]'),
-         'numerical': ('NumericalGrader', '1', '1')}
+         'numerical': ('NumericalGrader', '1', '1'), 'string': ('StringGrader', 'hit', 'hit')}
+ERR_EVENTS = ('Es', 'Et', 'Ea')
+GUARD_CFG = {'suppress': {'suppress_matrix_messages': True}, 'raise': {},
+             'message': {'shape_errors': False, 'answer_shape_mismatch': {'is_raised': False, 'msg_detail': 'type'}}}
 ATT = {'c1': 1, 'c12': 0.5, 'c0': 0}
 
 
@@ -132,6 +135,10 @@ def cmp_value(v, pos):
         return False
     if v == 'P':
         return 'partial'
+    if v in ERR_EVENTS:
+        from mitxgraders.exceptions import InputTypeError
+        from mitxgraders.helpers.calc.exceptions import MathArrayShapeError, ArgumentShapeError
+        return {'Es': MathArrayShapeError, 'Et': InputTypeError, 'Ea': ArgumentShapeError}[v]('MSG_EM@p%d' % pos)
     d = {'grade_decimal': fl(DICT_GRADE[v])}
     if v.endswith('m'):
         d['msg'] = 'MSG_CM@p%d' % pos
@@ -148,6 +155,8 @@ class Script(object):
     def __call__(self, comparer_params_eval, student_eval, utils):
         v = self.returns[self.calls % len(self.returns)]
         self.calls += 1
+        if isinstance(v, Exception):
+            raise v
         return dict(v) if isinstance(v, dict) else v
 
 
@@ -165,6 +174,8 @@ def correlated_script(returns):
 
             def __call__(self, comparer_params_evals, student_evals, utils):
                 v = self.config['script'][0]
+                if isinstance(v, Exception):
+                    raise v
                 return dict(v) if isinstance(v, dict) else v
         _CORR['cls'] = ScriptCorr
     return _CORR['cls'](script=list(returns))
@@ -238,10 +249,23 @@ def realise(part, ch, host):
     if part == 'item':
         lf = leaves[0]
         cls = getattr(mg, HOSTS[host][0])
-        cfg = dict(answers=leaf_answers(lf, 0, host, corr=head['corr']),
-                   wrong_msg='' if lf['wrong'] is False else 'MSG_WR@p0', **kw)
+        wrong = '' if lf['wrong'] is False else 'MSG_WR@p0'
+        if host == 'string':
+            # comparer True = the cleaned input equals this alternative's text, False = it does not
+            answers = []
+            for k, alt in enumerate(lf['alts']):
+                credit, pin = ANS[alt['ans']]
+                a = {'expect': 'hit' if alt['cmps'] == ['T'] else 'miss%d' % k, 'grade_decimal': fl(credit),
+                     'msg': 'MSG_A%d@p0' % (k + 1)}
+                if pin is not None:
+                    a['ok'] = pin
+                answers.append(a)
+            return cls(answers=tuple(answers), wrong_msg=wrong, **kw), 'hit', pins, 1, 'item'
+        cfg = dict(answers=leaf_answers(lf, 0, host, corr=head['corr']), wrong_msg=wrong, **kw)
         if host != 'numerical':
             cfg.update(samples=head['samples'], failable_evals=head['failable'])
+        if host == 'matrix':
+            cfg.update(GUARD_CFG[head.get('guard', 'raise')])
         return cls(**cfg), HOSTS[host][2], pins, 1, 'item'
     if part == 'single':
         n_e, n_i = head['expected'], head['submitted']
@@ -261,6 +285,22 @@ def realise(part, ch, host):
         g = mg.SingleListGrader(subgrader=sub, ordered=True, delimiter=';', partial_credit=head['partial_credit'],
                                 answers=ans, wrong_msg='' if tail.get('owrong') is False else 'MSG_WR@p0', **kw)
         return g, ';'.join([HOSTS[host][2]] * n_i), pins, 1, 'item'
+    if part == 'interval':
+        lw = [lf['wrong'] for lf in leaves if lf['wrong'] is not None]
+        sub = getattr(mg, HOSTS[host][0])(wrong_msg='MSG_WR@p0' if (not lw or lw[0]) else '')
+        opening = ({'expect': '['}, {'expect': '(', 'grade_decimal': 0.5, 'msg': 'MSG_B1@p0'}, {'expect': '{', 'grade_decimal': 0})
+        closing = ({'expect': ']'}, {'expect': ')', 'grade_decimal': 0.5, 'msg': 'MSG_B2@p0'}, {'expect': '}', 'grade_decimal': 0})
+        credit, pin = ANS[head['listans']]
+        ans = {'expect': [opening, leaf_answers(leaves[0], 0, host), leaf_answers(leaves[1], 0, host), closing],
+               'grade_decimal': fl(credit), 'msg': 'MSG_LA@p0'}
+        if pin is not None:
+            ans['ok'] = pin
+            pins |= pins_of([head['listans']])
+        g = mg.IntervalGrader(subgrader=sub, opening_brackets='[({<', closing_brackets='])}>',
+                              partial_credit=head['partial_credit'], answers=ans,
+                              wrong_msg='' if tail.get('owrong') is False else 'MSG_WR@p0', **kw)
+        typed = {'b1': '[]', 'b12': '()', 'b0': '{}', 'bnone': '<>'}
+        return g, typed[head['open']][0] + '1,1' + typed[head['close']][1], pins, 1, 'item'
     # list
     layout = head['layout']
     groups = GROUPS[layout]
@@ -304,7 +344,7 @@ def model_item(m):
     return {'ok': m['ok'], 'g': m['g'], 'm': sorted(m['m'])}
 
 
-def compare_item(m, e):
+def compare_item(m, e, ignore=frozenset()):
     """model item vs real entry -> list of differing fields"""
     diffs = []
     if ok_name(e.get('ok')) != m['ok']:
@@ -313,13 +353,13 @@ def compare_item(m, e):
     n, d = m['g']
     if not isinstance(g, numbers.Real) or abs(g - n / d) > 1e-12:
         diffs.append('grade %r vs model %d/%d' % (g, n, d))
-    seen = set(scan(e.get('msg'))[0]) & MODEL_VOCAB
-    if seen != set(m['m']):
+    seen = (set(scan(e.get('msg'))[0]) & MODEL_VOCAB) - ignore
+    if seen != set(m['m']) - ignore:
         diffs.append('markers %s vs model %s' % (sorted(seen), sorted(m['m'])))
     return diffs
 
 
-def compare_result(mres, result):
+def compare_result(mres, result, ignore=frozenset()):
     if not isinstance(result, dict):
         return ['not a dict']
     if 'items' in mres:
@@ -337,17 +377,24 @@ def compare_result(mres, result):
         return diffs
     if 'input_list' in result:
         return ['model returns the single form']
-    return compare_item(mres, result)
+    return compare_item(mres, result, ignore)
 
 
-def hosts_for(part, head, k, all_hosts=True):
+def hosts_for(part, ch, head, k, all_hosts=True):
     if part == 'item':
+        cmps = [v for t, v in ch if t == 'cmp']
+        if any(v in ERR_EVENTS for v in cmps):
+            return ['matrix']               # only MatrixGrader guards its check_response
         hs = ['formula', 'matrix']
         if head['samples'] == 1 and head['failable'] == 0 and not head['corr']:
             hs.append('numerical')
+            if all(v in ('T', 'F') for v in cmps):
+                hs.append('string')         # StringGrader.check_response: match -> the answer's ok/grade/msg, else zero
         return hs if all_hosts else [hs[k % len(hs)]]
     if part == 'single':
         return [['formula', 'matrix', 'numerical'][k % 3]]
+    if part == 'interval':
+        return [['formula', 'numerical'][k % 2]]
     return [['formula', 'matrix'][k % 2]]
 
 
@@ -367,18 +414,29 @@ def replay_states(states, extra):
     part = extra['part']
     classes = {}          # record text -> [count, example]
     drift = []
-    n_term = n_calls = n_pred = 0
+    n_term = n_calls = n_pred = n_raised = 0
     keys = set()
     k = 0
     for st in states:
-        if st.get('st') != 'returned':
+        if st.get('st') not in ('returned', 'raised'):
             continue
         n_term += 1
         ch = st['ch']
         head = decode(ch)[0]
+        if st['st'] == 'raised':
+            # the model says the call raises the shape / type error: nothing is returned, nothing to judge
+            result, err, meta = run_vector(part, ch, 'matrix')
+            n_calls += 1
+            n_raised += 1
+            if (err is None or err.split(':')[0] not in ('MathArrayShapeError', 'InputTypeError', 'ArgumentShapeError')) \
+                    and len(drift) < 20:
+                drift.append({'part': part, 'host': 'matrix', 'ch': ch,
+                              'what': 'model raises the shape/type error, code %s' % ('returned %s' % brief(result, 120) if err is None else 'raised ' + err)})
+            keys.add((part, 'MatrixGrader', 'raised', ()))
+            continue
         if st['vd'] != '':
             n_pred += 1
-        for host in hosts_for(part, head, k, extra.get('all_hosts', True)):
+        for host in hosts_for(part, ch, head, k, extra.get('all_hosts', True)):
             k += 1
             result, err, meta = run_vector(part, ch, host)
             n_calls += 1
@@ -386,7 +444,7 @@ def replay_states(states, extra):
                 if len(drift) < 20:
                     drift.append({'part': part, 'host': host, 'ch': ch, 'what': 'model returns, code raised ' + err})
                 continue
-            diffs = compare_result(st['res'], result)
+            diffs = compare_result(st['res'], result, frozenset(['LOGCMP']) if host == 'string' else frozenset())
             if diffs and len(drift) < 20:
                 drift.append({'part': part, 'host': host, 'ch': ch, 'what': '; '.join(diffs[:3]),
                               'model_verdict': st['vd']})
@@ -403,7 +461,7 @@ def replay_states(states, extra):
                 if len(ch) < len(c[1]['ch']):       # keep the shortest vector as the representative
                     c[1] = {'part': part, 'host': host, 'ch': ch, 'result': brief(result), 'model_verdict': st['vd']}
             keys.add((part, meta['cls'], st['vd'], tuple(sorted((i['ok'], i['cls']) for i in rec['items']))))
-    return {'terminal': n_term, 'calls': n_calls, 'predicted_ill_formed': n_pred, 'classes': classes, 'drift': drift,
+    return {'terminal': n_term, 'calls': n_calls, 'predicted_ill_formed': n_pred, 'raised': n_raised, 'classes': classes, 'drift': drift,
             'keys': sorted(keys)}
 
 
@@ -1021,17 +1079,18 @@ def observe_chunk(items, extra):
 
 
 # ------------------------------------------------------------------ the check
-PARTS = ['item', 'single', 'list']
+PARTS = ['item', 'single', 'interval', 'list']
+COMMON_ACTIONS = ['Start', 'LeafStart', 'NextAlt', 'Compare', 'Standardize', 'Multiply', 'ConsolidateSamples', 'Best',
+                  'StripKeys', 'AttemptCredit', 'DebugAppend', 'FormatMessages']
+PART_ACTIONS = {'item': ['MatrixGuard'], 'single': ['Pad', 'SingleConsolidate', 'SingleAward', 'OuterBest'],
+                'interval': ['Brackets', 'SingleConsolidate', 'SingleAward', 'OuterBest'],
+                'list': ['TableReturn', 'NestedCheck', 'UngroupStage', 'ZeroIfImperfect']}
 
 
 def first_counterexample(out):
     """the choice vector of the last state of a TLC counterexample, as text"""
-    i = out.rfind('/\\ ch = ')
-    if i < 0:
-        return None
-    j = out.find('/\\ res', i)
-    txt = re.sub(r'\s+', ' ', out[i + 8:j if j > 0 else i + 600])
-    return txt.strip()
+    ms = re.findall(r'/\\ ch = (<<.*?>> >>)', out, re.S)
+    return re.sub(r'\s+', ' ', ms[-1]) if ms else None
 
 
 def clause_class(clause):
@@ -1042,11 +1101,17 @@ def run_replay(ctx, variant):
     """TLC exploration + replay of every terminal vector for one model variant ('' as coded, '_repaired').
     -> (classes merged over parts, drift list, statistics)"""
     classes, drift = {}, []
-    stats = {'terminal': 0, 'calls': 0, 'predicted_ill_formed': 0}
+    stats = {'terminal': 0, 'calls': 0, 'predicted_ill_formed': 0, 'raised': 0}
     for part in PARTS:
         d = os.path.join(ctx.scratch, 'cases_%s%s' % (part, variant))
-        ctx.tlc('graders/MC_ResultPipeline.tla', 'graders/MC_ResultPipeline_%s_%s%s.cfg' % (part, ctx.tier, variant),
-                dump=d, timeout=3000, deadlock=True)
+        r = ctx.tlc('graders/MC_ResultPipeline.tla', 'graders/MC_ResultPipeline_%s_%s%s.cfg' % (part, ctx.tier, variant),
+                    dump=d, timeout=3000, deadlock=True, coverage=not ctx.quick)
+        if not ctx.quick:       # vacuity guard: every stage of this part was exercised
+            cov = r.coverage()
+            dead = [a for a in COMMON_ACTIONS + PART_ACTIONS[part] if cov.get(a, (0, 0))[0] == 0]
+            if dead:
+                from engine.main import Machinery
+                raise Machinery('ResultPipeline part %s: actions never taken: %s' % (part, dead))
         res = dump.parallel(d + '.dump', 'engine.adapters.c01', 'replay_states',
                             extra={'part': part, 'all_hosts': not ctx.quick})
         os.remove(d + '.dump')
@@ -1089,6 +1154,9 @@ def run(ctx):
         if not drift2:
             classes, drift, stats, variant = classes2, drift2, stats2, 'repaired'
     ctx.extra['model_variant_followed_by_code'] = variant
+    if stats['raised'] == 0 or stats['terminal'] == stats['raised']:
+        from engine.main import Machinery
+        raise Machinery('replay is vacuous: %s' % stats)
     ctx.extra['replay'] = stats
     ctx.traces_validated += stats['calls']
     ctx.evaluations += stats['calls']
@@ -1140,7 +1208,7 @@ def run(ctx):
             _, cnt, ex = owner[rid]
             sig = {'class': clause_class(clause), 'source': 'replay', 'part': ex['part'], 'host': ex['host'],
                    'choices': [list(x) for x in ex['ch']], 'returned': ex['result'], 'same_shape_count': cnt,
-                   'model_verdict': ex['model_verdict']}
+                   'model_verdict': ex['model_verdict'], 'predicted_by_model': bool(ex['model_verdict'])}
             ctx.violation(sig, 'replayed vector %s returned %s: %s (%d vectors with this shape; the model %s)' % (
                 vector_text(ex['part'], ex['host'], ex['ch']), ex['result'], clause, cnt,
                 'predicts it' if ex['model_verdict'] else 'returns a well-formed value'))
@@ -1164,20 +1232,24 @@ def run(ctx):
         'grade_decimal is not 1)',
         'SumGrader may answer several input boxes with the single-dictionary form (DESIGN C01)',
         'ListGrader stage of the model is ordered=True with one answer list; unordered matching and alternative answer '
-        'lists are exercised by the random driver only (and modelled in C05)']
+        'lists are exercised by the random driver only (and modelled in C05)',
+        'calls that raise (shape / type errors not suppressed, invalid inputs) return nothing and are outside C01 (C02)']
 
 
 def replay(ctx, rec):
+    """re-run one recorded case against the current tree and let the trace specification judge what it returns"""
     from engine import repo
     repo.activate()
     sig = rec['signature']
     if sig.get('source') == 'replay':
-        result, err, meta = run_vector(sig['part'], [tuple(x) for x in sig['choices']], sig['host'])
-        print('vector  :', vector_text(sig['part'], sig['host'], sig['choices']))
-        print('returned:', result if err is None else err)
+        ch = [tuple(x) for x in sig['choices']]
+        result, err, meta = run_vector(sig['part'], ch, sig['host'])
+        print('vector  :', vector_text(sig['part'], sig['host'], ch))
+        print('returned:', result if err is None else 'raised ' + err)
         if err is not None:
             return True
         facts = project(result)
+        facts.update(cls=meta['cls'], form=meta['form'], n_inputs=meta['n_inputs'], debug=meta['debug'], pinned=meta['pins'])
     else:
         d = sig['case']
         facts, outcome, result = observe_case(d)
@@ -1185,10 +1257,8 @@ def replay(ctx, rec):
         print('returned:', result if facts else outcome)
         if facts is None:
             return True
-        meta = {'pins': facts['pinned']}
-    ok = True
-    for it in facts['items']:
-        want = {'zero': 'false', 'one': 'true', 'mid': 'partial'}.get(it['cls'])
-        if it['ok'] != want and not (it['cls'] == 'one' and it['ok'] in meta['pins']):
-            ok = False
-    return ok
+    facts['id'] = 1
+    rej = traces.validate(ctx, 'graders/ResultShapeTrace.tla', 'graders/ResultShapeTrace.cfg', [facts])
+    if rej:
+        print('verdict : rejected by ResultShapeTrace, clause %s' % rej[1])
+    return not rej
